@@ -583,6 +583,14 @@ theorem source_never_closes {α : Type} (mid : α → α → α) (pts : List (Pt
 /-- the transform formula of the source is the model's (structure of `+` and `*` included) -/
 theorem source_transform_eq_model : @Gen.transform = @transform := rfl
 
+/-- `transform` exists in two build variants (statements under `#[cfg(feature = "kurbo")]` /
+    `#[cfg(not(feature = "kurbo"))]`): the default-feature build — the one a user gets unless asking otherwise, and the
+    one the kurbo-enabled harness never executes — is the model's formula as well … -/
+theorem source_transform_plain_eq_model : @Gen.transformPlain = @transform := rfl
+
+/-- … so the two builds of the source compute the same expression -/
+theorem source_transform_builds_agree : @Gen.transform = @Gen.transformPlain := rfl
+
 /-- both conversions of the source map the coefficients as the model does -/
 theorem source_conversions_eq_model : @Gen.toK = @toK ∧ @Gen.ofK = @ofK := ⟨rfl, rfl⟩
 
